@@ -5,6 +5,7 @@
 From JT.Base Require Import Prelude.
 From JT.Model Require Import Reply.
 From JT.Gen Require Import Tables_gen.
+From Coq Require Import String.
 
 Theorem tables_reply_registry :
   map (fun p => (fst p, (fst (fst (snd p)), snd (fst (snd p))))) gen_reply_registry =
@@ -39,3 +40,13 @@ Proof. split; reflexivity. Qed.
    is enabled *)
 Theorem tables_active_respond_ids : gen_active_respond_ids = response_ids.
 Proof. reflexivity. Qed.
+
+(* every accepted connection gets its own handler instances and its own connection object (channels,
+   platformSerialNumber): what Props/C06.v C06_connections_independent rests on *)
+Theorem tables_handles_per_connection : gen_handles_per_connection = true.
+Proof. reflexivity. Qed.
+
+(* capacities of the two channels of the reply path (newConnection) *)
+Theorem tables_reply_chan_caps :
+  In ("msgChan"%string, MSG_CAP) gen_chan_caps /\ In ("reissuePackChan"%string, REISSUE_CAP) gen_chan_caps.
+Proof. split; unfold gen_chan_caps, MSG_CAP, REISSUE_CAP; cbn [In]; tauto. Qed.
